@@ -27,15 +27,19 @@ var verifGovEmitter = vaa.Address{31: 4}
 
 const verifGovChain = vaa.ChainID(1)
 
+// the receive side of the processor's outbound re-observation request queue (the field itself is send-only)
+var verifReqC chan *gossipv1.ObservationRequest
+
 func verifNewProcessor(own int) *Processor {
 	d, err := db.Open(zzverif.TempDir())
 	if err != nil {
 		panic(err)
 	}
+	verifReqC = make(chan *gossipv1.ObservationRequest, 4)
 	return &Processor{
 		lockC: make(chan *common.MessagePublication, 8), setC: make(chan *common.GuardianSet, 8),
 		sendC: make(chan []byte, 64), obsvC: make(chan *gossipv1.SignedObservation, 64),
-		obsvReqSendC: make(chan *gossipv1.ObservationRequest, 4), signedInC: make(chan *gossipv1.SignedVAAWithQuorum, 8),
+		obsvReqSendC: verifReqC, signedInC: make(chan *gossipv1.SignedVAAWithQuorum, 8),
 		injectC: make(chan *vaa.VAA, 8), guardianSigner: &verifSigner{own},
 		gst: common.NewGuardianSetState(nil), db: d, attestationEvents: reporter.EventListener(zap.NewNop()),
 		logger: zap.NewNop(), state: &aggregationState{vaaMap{}}, ourAddr: ethcommon.Address(zzverif.AddrOf(own)),
